@@ -1033,6 +1033,52 @@ pub fn resolve(op: &str) -> Option<OpFn> {
             let f = Formatter::try_new(&pic).map_err(en)?;
             ok(o, Lit(field_list(&f)))
         },
+        "F.try_new_idx" => |a, o| {
+            // F.try_new_idx s:ALPHABET LEN IDX : the IDX-th string of length LEN over ALPHABET
+            // (digits of IDX in base |ALPHABET|, most significant first), then as F.try_new.
+            need(a, 3)?;
+            let alpha = text(a[0])?.into_bytes();
+            let len = int(a[1])?;
+            let mut idx = int(a[2])?;
+            if alpha.is_empty() || !(0..=64).contains(&len) || idx < 0 {
+                return Err("bad-arg");
+            }
+            let n = alpha.len() as i128;
+            let mut buf = vec![0u8; len as usize];
+            for k in (0..len as usize).rev() {
+                buf[k] = alpha[(idx % n) as usize];
+                idx /= n;
+            }
+            if idx != 0 {
+                return Err("bad-arg");
+            }
+            let pic = String::from_utf8(buf).map_err(|_| "skip-utf8")?;
+            let f = Formatter::try_new(&pic).map_err(en)?;
+            ok(o, Lit(field_list(&f)))
+        },
+        "F.roundtrip" => |a, o| {
+            // format, parse the text with the same formatter, format the parsed value again
+            need(a, 10)?;
+            with_ty!(a[0], T => {
+                let v: T = rv(a[1])?;
+                let pic = text(a[2])?;
+                clock(&a[3..], o)?;
+                let f = Formatter::try_new(&pic).map_err(en)?;
+                let mut s = String::new();
+                f.format(v, &mut s).map_err(en)?;
+                match f.parse::<_, T>(&s) {
+                    Err(e) => ok(o, (Bytes(s.into_bytes()), Lit("parse".to_string()), Lit(en(e).to_string()))),
+                    Ok(v2) => {
+                        let r = reads();
+                        let mut s2 = String::new();
+                        match f.format(v2, &mut s2) {
+                            Err(e) => ok(o, (Bytes(s.into_bytes()), v2, r, Lit("format".to_string()), Lit(en(e).to_string()))),
+                            Ok(()) => ok(o, (Bytes(s.into_bytes()), v2, r, Bytes(s2.into_bytes()))),
+                        }
+                    }
+                }
+            })
+        },
         "F.format" => |a, o| {
             need(a, 4)?;
             with_ty!(a[0], T => {
